@@ -419,9 +419,9 @@ func (vc *VC) addInstances(o *Obligation, cands []Term) {
 			if qs := qf.sort; (qs == "" && c.Sort != SInt) || (qs != "" && c.Sort != qs) || qf.ref != vc.refTerms[c.S] {
 				continue
 			}
-			o.Extra = append(o.Extra, "(assert "+implies(qf.guard, subst(qf.body, qf.varSym, c)).S+")")
+			o.Inst = append(o.Inst, "(assert "+implies(qf.guard, subst(qf.body, qf.varSym, c)).S+")")
 			for _, u := range qf.unfolds {
-				o.Extra = append(o.Extra, "(assert "+subst(eq(u.app, u.body), qf.varSym, c).S+")")
+				o.Inst = append(o.Inst, "(assert "+subst(eq(u.app, u.body), qf.varSym, c).S+")")
 			}
 		}
 	}
